@@ -359,6 +359,17 @@ func init() {
 			slOK = i1 >= 0 && i2 > i1 && i3 > i2 && i4 > i3 && i5 > i4 && i6 > i3 && i6 < strings.Index(b, "if f.sharedStringTemp != nil") && strings.Count(b, "f.SharedStrings") == 1
 		}
 		fmt.Fprintf(w, "def sstLoaderPromotesThenRemoves : Bool := %s\n", c12Bool(slOK))
+		// DeleteSheet: what it does to the two tiers
+		ds := funcDecl("File", "DeleteSheet")
+		if ds == nil {
+			fail("func (*File) DeleteSheet")
+		} else {
+			b := src(ds.Body)
+			fmt.Fprintf(w, "def deleteSheetDeletesPkg : Bool := %s\n", c12Bool(strings.Contains(b, "f.Pkg.Delete(sheetXML)") && strings.Contains(b, "f.Sheet.Delete(sheetXML)")))
+			drops := strings.Contains(b, "f.tempFiles.Delete(sheetXML)") || strings.Contains(b, "f.tempFiles.LoadAndDelete(sheetXML)")
+			fmt.Fprintf(w, "def deleteSheetDropsTemp : Bool := %s\n", c12Bool(drops))
+			fmt.Fprintf(w, "def deleteSheetRemovesFile : Bool := %s\n", c12Bool(drops && strings.Contains(b, "os.Remove(")))
+		}
 		// callers that consult the decoded shared string table call the loader first
 		needLoader := []string{"setSharedString", "SetCellRichText", "GetCellRichText"}
 		w.WriteString("def loaderBeforeReader : List (String × Bool) := [")
